@@ -39,6 +39,21 @@ func c02Check(in []byte, m *stun.Message) (outcome, key, detail string) {
 			}
 			// the other decode entry points, each on a Message that has just held another datagram (one per input,
 			// rotating; all four for inputs of at most 24 bytes)
+			// the copying entry points into a Message that has no storage yet (nothing to copy into: they must allocate)
+			// (not ReadFrom: it reads into the storage the Message has, and documents that)
+			for e := 2; e <= 4; e++ {
+				if len(in) > 24 && e != 2+(len(in)+int(in[0]))%3 && c02Prev == nil {
+					continue
+				}
+				*m = stun.Message{}
+				c02Entry = e
+				_, k2, d2 = c02Check1(in, m)
+				c02Entry = 0
+				if k2 != "" {
+					key, detail = k2+"/fresh-message/"+c02EntryNames[e], "through "+c02EntryNames[e]+" into a Message without storage: "+d2
+					return
+				}
+			}
 			prev := c01Big
 			if c02Prev != nil {
 				prev = c02Prev
@@ -48,7 +63,7 @@ func c02Check(in []byte, m *stun.Message) (outcome, key, detail string) {
 					continue
 				}
 				m.Raw = append(make([]byte, 0, len(in)+len(prev)), prev...)
-				if err := m.Decode(); err != nil {
+				if err := m.Decode(); err != nil && c02Prev == nil {
 					key, detail = "harness", "priming message does not decode"
 					return
 				}
@@ -78,19 +93,24 @@ var c02EntryNames = []string{"Message.Decode", "ReadFrom", "Write", "Decode(data
 
 func c02Check1(in []byte, m *stun.Message) (outcome, key, detail string) {
 	want, why := ref.Parse(in)
+	// the copying entry points get a buffer of the caller (same length AND capacity as the input, with whatever lies
+	// behind it) which the caller overwrites as soon as the call returns
+	caller := make([]byte, cap(in))
+	copy(caller, in[:cap(in)])
+	caller = caller[:len(in)]
 	var err error
 	switch c02Entry {
 	case 0:
 		m.Raw = in
 		err = m.Decode()
 	case 1:
-		_, err = m.ReadFrom(&udpReader{d: in})
+		_, err = m.ReadFrom(&udpReader{d: caller})
 	case 2:
-		_, err = m.Write(in)
+		_, err = m.Write(caller)
 	case 3:
-		err = stun.Decode(in, m)
+		err = stun.Decode(caller, m)
 	case 4:
-		err = m.UnmarshalBinary(in)
+		err = m.UnmarshalBinary(caller)
 	case 5:
 		err = (&stun.Message{Raw: append([]byte(nil), in...)}).CloneTo(m)
 	case 6:
@@ -111,6 +131,11 @@ func c02Check1(in []byte, m *stun.Message) (outcome, key, detail string) {
 		}
 		if !called {
 			err = src.CloneTo(m)
+		}
+	}
+	if c02Entry >= 1 && c02Entry <= 4 {
+		for i := range caller[:cap(caller)] {
+			caller[:cap(caller)][i] ^= 0xA5
 		}
 	}
 	if (err == nil) != (want != nil) {
@@ -262,6 +287,16 @@ func init() {
 				visit(in, seq)
 				c02Prev = nil
 			})
+			sweepFullAfterPrefix(c, func(in *decodeInput, seq int64) {
+				c02Prev = in.Prev
+				visit(in, seq)
+				c02Prev = nil
+			})
+			sweepPrefixInRoomySlice(c, func(in *decodeInput, seq int64) {
+				c02Prev = c01Big // (every entry point, not the rotating one)
+				visit(in, seq)
+				c02Prev = nil
+			})
 			// all 65536 message type words in front of a fixed two-attribute body
 			body := ref.Encode(0, [12]byte{1, 2, 3, 4, 5, 6, 7, 8, 9, 10, 11, 12}, []ref.EncodeAttr{{Type: 0x8020, Value: []byte{1, 2, 3}}, {Type: 0x0020, Value: []byte{9}}})
 			in := &decodeInput{Fam: "typeword"}
@@ -282,13 +317,23 @@ func init() {
 		},
 		Replay: func(c *Ctx, p json.RawMessage) {
 			c.startWatchdog(5e9)
-			var r struct{ Hex, Prev string }
+			var r struct {
+				Hex, Prev, Behind string
+				Roomy             bool
+			}
 			if err := json.Unmarshal(p, &r); err != nil {
 				c.Fail("%v", err)
 			}
 			b, _ := hex.DecodeString(r.Hex)
 			if r.Prev != "" {
 				c02Prev, _ = hex.DecodeString(r.Prev)
+			}
+			if r.Behind != "" {
+				bh, _ := hex.DecodeString(r.Behind)
+				b = append(b, bh...)[:len(b)]
+				if r.Roomy {
+					c02Prev = c01Big
+				}
 			}
 			wc := &watchCase{Key: "hang", Detail: "Decode does not return", Replay: map[string]interface{}{"hex": r.Hex}}
 			c.Watch(wc)
